@@ -161,3 +161,64 @@ Proof.
   - split; [rewrite filter_app; reflexivity|]. rewrite (filter_app_comm_disjoint _ c1 c2 (Hc m)). reflexivity.
   - split; [rewrite filter_app; reflexivity|]. rewrite (filter_app_comm_disjoint _ i1 i2 (Hi m)). reflexivity.
 Qed.
+
+(* ---------- C20: declarations of other classes are invisible to a lookup ---------- *)
+Lemma node_eqb_eq a b : node_eqb a b = true <-> a = b.
+Proof.
+  destruct a as [f1 c1], b as [f2 c2]. unfold node_eqb. cbn [fst snd]. split.
+  - intros H. apply andb_true_iff in H as [H1 H2]. apply String.eqb_eq in H1, H2. subst. reflexivity.
+  - intros E. inversion E. subst. rewrite !String.eqb_refl. reflexivity.
+Qed.
+
+Definition edges_of (es : list (node * list node)) (n : node) : list node :=
+  match aget node_eqb es n with Some l => l | None => [] end.
+
+Lemma add_edge_other es n p dd n' : n' <> n -> edges_of (add_edge es n p dd) n' = edges_of es n'.
+Proof.
+  intros Hne. unfold add_edge, edges_of.
+  destruct (dd && existsb (node_eqb p) match aget node_eqb es n with Some l => l | None => [] end); [reflexivity|].
+  rewrite (aget_aset node_eqb node_eqb_eq).
+  destruct (node_eqb n' n) eqn:E; [apply node_eqb_eq in E; congruence|reflexivity].
+Qed.
+
+Lemma load_one_edges_other w cd n :
+  n <> (cd_frame cd, cd_class cd) -> edges_at (load_one w cd) n = edges_at w n.
+Proof.
+  intros Hne. unfold load_one. destruct (is_name_space (cd_class cd)); [reflexivity|].
+  unfold edges_at. cbn [w_edges].
+  change (match aget node_eqb ?x n with Some l => l | None => [] end) with (edges_of x n).
+  assert (Hfold : forall ps es, edges_of (fold_left (fun es p => add_edge es (cd_frame cd, cd_class cd) (parent_node (cd_frame cd) p) true) ps es) n = edges_of es n).
+  { induction ps as [|p r IH]; intros es; cbn [fold_left]; [reflexivity|]. rewrite IH. apply add_edge_other. exact Hne. }
+  rewrite Hfold.
+  destruct (negb (String.eqb (cd_class cd) "") && negb (String.eqb (cd_class cd) "Kernel")); [|reflexivity].
+  apply add_edge_other. exact Hne.
+Qed.
+
+Definition mentions (cd : classdef) (f c : string) : bool := String.eqb f (cd_frame cd) && String.eqb c (cd_class cd).
+
+(* adding configuration files for other classes changes no method lookup and no parent list of the classes
+   already there — in whatever position the new files are loaded *)
+Theorem extra_classes_invisible_methods cfg extra f c m s :
+  forallb (fun cd => negb (mentions cd f c)) extra = true ->
+  forall cfg', Permutation cfg' (cfg ++ extra) -> NoDup (map class_id cfg') ->
+  methods_at (load cfg') (f, c, m, s) = methods_at (load cfg) (f, c, m, s).
+Proof.
+  intros Hex cfg' Hp Hnd. rewrite (load_perm cfg' (cfg ++ extra) _ Hp Hnd). rewrite !load_methods.
+  unfold spec_methods. rewrite flat_map_app.
+  assert (Hnil : flat_map (fun cd => decls_for cd (f, c, m, s)) extra = []).
+  { clear -Hex. induction extra as [|cd r IH]; cbn [flat_map]; [reflexivity|].
+    cbn [forallb] in Hex. apply andb_true_iff in Hex as [H1 H2]. rewrite (IH H2), app_nil_r.
+    unfold decls_for. destruct (is_name_space (cd_class cd)); [reflexivity|].
+    unfold mentions in H1. apply negb_true_iff in H1. rewrite H1. reflexivity. }
+  rewrite Hnil. apply app_nil_r.
+Qed.
+
+Theorem extra_classes_invisible_edges extra : forall w n,
+  forallb (fun cd => negb (mentions cd (fst n) (snd n))) extra = true ->
+  edges_at (fold_left load_one extra w) n = edges_at w n.
+Proof.
+  induction extra as [|cd r IH]; intros w n Hex; cbn [fold_left]; [reflexivity|].
+  cbn [forallb] in Hex. apply andb_true_iff in Hex as [H1 H2]. rewrite (IH _ _ H2).
+  apply load_one_edges_other. intros E. subst n. unfold mentions in H1. cbn [fst snd] in H1.
+  rewrite !String.eqb_refl in H1. discriminate.
+Qed.
